@@ -115,6 +115,9 @@ def _ops():
         "duplicate-the-loaded-tree": safe(lambda r, n: _CTX["loaded"].duplicate() if _CTX.get("loaded") is not None else None),
         "as_obj-payload-carrying-the-id-of-a-live-node": safe(_payload_with_foreign_id),
         "from_json-of-detached-twin-under-digest-size-1": safe(_collision_roundtrip),
+        "failed-load-after-detach_self:unknown-class-at-the-root": _failed_load("unknown-field-type-at-the-root"),
+        "failed-load-after-detach_self:unknown-origin-class": _failed_load("missing-origin-of-the-root"),
+        "failed-load-after-detach_self:unknown-class-of-the-last-nested-node": _failed_load("nested"),
     }
     return ops
 
@@ -215,8 +218,57 @@ def _registered(n: Any) -> bool:
     return NODE_REGISTRY.get(n.id) is n
 
 
-# operations that are specified to take nodes out of the registry (the target and, for detach, its subtree)
-_UNREGISTERING = ("detach", "replace", "roundtrip-after-detach", "as_obj-payload-carrying", "dataclasses.replace-rejected", "replace-rejected")
+# operations that are specified to take nodes out of the registry: the target alone ("self") or the
+# target and its whole subtree ("subtree"); longest matching prefix wins
+_UNREGISTERING = {
+    "detach_self": "self", "detach": "subtree", "replace": "self", "roundtrip-after-detach": "subtree", "as_obj-payload-carrying": "subtree",
+    "dataclasses.replace-rejected": "self", "replace-rejected": "self", "failed-load-after-detach_self": "self",
+}
+
+
+def _unregistering_scope(op: str) -> str | None:
+    best = None
+    for prefix, scope in _UNREGISTERING.items():
+        if op.startswith(prefix) and (best is None or len(prefix) > len(best[0])):
+            best = (prefix, scope)
+    return best[1] if best else None
+
+
+def _failed_load(corruption: str):
+    """The payload of a node is loaded again after the node itself (not its children) has left the
+    registry, and the load fails part-way: the children, alive and registered, were only re-used."""
+
+    def run(r, n):
+        d = n.as_dict()
+        n.detach_self()
+        if corruption == "unknown-field-type-at-the-root":
+            d["__type"] = "NoSuchNodeClass"
+        elif corruption == "missing-origin-of-the-root":
+            d.pop("origin", None)
+            d["origin"] = {"__type": "NoSuchOrigin"}
+        else:
+            # the last nested node mapping gets an unknown class
+            def last(m):
+                found = None
+                for v in m.values():
+                    for x in (v if isinstance(v, list) else [v]):
+                        if isinstance(x, dict) and "content_id" in x:
+                            found = x
+                return found
+
+            inner = last(d)
+            if inner is None:
+                d["__type"] = "NoSuchNodeClass"
+            else:
+                deeper = last(inner)
+                (deeper or inner)["__type"] = "NoSuchNodeClass"
+        try:
+            return type(n).as_obj(d)
+        except Exception:  # noqa: BLE001
+            return None
+
+    return run
+
 
 
 def _snapshot(nodes: dict[int, Any]) -> dict[int, tuple]:
@@ -237,7 +289,7 @@ def make_harness(K: int, first_op: str | None, trees: list[int] | None = None):
         ops = _ops()
         names = list(ops)
         # thorough: the third operation comes from the operations that create, unregister or re-create nodes
-        THIRD = [n for n in names if n.startswith(("transform", "duplicate", "replace", "dataclasses", "detach", "roundtrip", "as_obj", "from_json", "load-payload", "eq", "rich", "tree-queries", "findall", "merge_origins", "concat_origins", "origin-add"))]
+        THIRD = [n for n in names if n.startswith(("transform", "duplicate", "replace", "dataclasses", "detach", "roundtrip", "as_obj", "from_json", "load-payload", "failed-load", "eq", "rich", "tree-queries", "findall", "merge_origins", "concat_origins", "origin-add"))]
         tno = e.pick(trees, "tree") if trees else e.choice(len(TREES), "tree")
         root = build(TREES[tno])
         paths = positions_of(TREES[tno])
@@ -264,8 +316,9 @@ def make_harness(K: int, first_op: str | None, trees: list[int] | None = None):
                 if before[k] != after[k]:
                     n = existing[k]
                     diff = [a[0] for a, b in zip(before[k][0], after[k][0]) if a != b] or ["id/content_id/hash"]
-                    if diff == ["<registered under its id>"] and op.startswith(_UNREGISTERING) and k in below_target and before[k][0][-1][2] is True:
-                        continue  # the registry effect specified for detach / replace, on the target's own subtree
+                    scope = _unregistering_scope(op)
+                    if diff == ["<registered under its id>"] and before[k][0][-1][2] is True and ((scope == "subtree" and k in below_target) or (scope == "self" and existing[k] is node)):
+                        continue  # the registry effect specified for detach / detach_self / replace
                     scenario.update(modified=type(n).__name__, fields=diff)
                     e.fail(f"existing-node-modified:{op}", scenario=scenario)
             _collect(result, existing)
